@@ -39,7 +39,7 @@ PROPS = {
     "C07": {"quick": [J("^vhC07_.*_L2$", samples=4)], "thorough": [J("^vhC07_.*_L3$", samples=8)], "bounds": {}, "assumptions": []},
     "C09": {"quick": [J("^vhC09_.*_L2$", samples=4), J("^vhC09_async_n2$", samples=3, timeshim=True)], "thorough": [J("^vhC09_.*_L3$", samples=8), J("^vhC09_async_n3$", preempt=1, samples=3, timeshim=True)], "bounds": {}, "assumptions": []},
     "C12": {"quick": [J("^vhC12_.*_L2$|^vhC12_multi_T2$", samples=4)], "thorough": [J("^vhC12_.*_L3$|^vhC12_multi_T3$", samples=8)], "bounds": {}, "assumptions": []},
-    "C01": {"quick": [J("^vhC01_.*_L3$", samples=6), J("^vhC02_core_3x1$", preempt=0, samples=2)], "thorough": [J("^vhC01_.*_L4$", samples=12), J("^vhC02_core_(3x1|2x2)$", preempt=1, samples=2)],
+    "C01": {"quick": [J("^vhC01_.*_L3$", samples=6), J("^vhC04_chain_L2$", samples=2, only_msgs="after a terminal"), J("^vhC02_core_3x1$", preempt=0, samples=2)], "thorough": [J("^vhC01_.*_L4$", samples=12), J("^vhC02_core_(3x1|2x2)$", preempt=1, samples=2)],
             "bounds": {"script_length_quick": 3, "script_length_thorough": 4}, "assumptions": []},
     "C11": {"quick": [J("^vhC11_.*_K4$", samples=4), J("^vhC11_conc_2$", preempt=0, samples=2), J("^vhC11_conc_2$", preempt=1, samples=2)], "thorough": [J("^vhC11_.*_K5$", samples=8), J("^vhC11_conc_2$", preempt=0, samples=2), J("^vhC11_conc_2$", preempt=2, samples=2)], "bounds": {}, "assumptions": []},
     "C13": {"quick": [J("^vhC02_core_2x2$|^vhC06_wait_L1$|^vhC08_handoff_n2$|^vhC17_(tochannel|fromchannel)_L2$", preempt=1, races=True, only_kinds=["race", "crash"], samples=2),
@@ -50,7 +50,7 @@ PROPS = {
     "C16": {"quick": [J("^vhC16_.*2$", samples=2, timeshim=True)], "thorough": [J("^vhC16_(delay|interval|timeout|throttle).*3$|^vhC16_sample_n2$", samples=2, timeshim=True)], "bounds": {}, "assumptions": []},
     "C10": {"quick": [J("^vhC10_seq_.*_K4$", samples=3), J("^vhC10_conc_", preempt=0, samples=1), J("^vhC10_conc_(behavior|unicast|async)", preempt=1, samples=1)], "thorough": [J("^vhC10_seq_.*_K5$", samples=6), J("^vhC10_conc_", preempt=0, samples=1), J("^vhC10_conc_", preempt=2, samples=1, maxpaths=3000000)],
             "bounds": {"ops_quick": 4, "ops_thorough": 5, "subscribers": 3}, "assumptions": []},
-    "C04": {"quick": [J("^vhC04_(ref_L5|variants_L2|blocking_L2)$", samples=8)], "thorough": [J("^vhC04_(ref_L6|variants_L3|blocking_L3)$", samples=16)],
+    "C04": {"quick": [J("^vhC04_(ref_L5|variants_L2|blocking_L2|chain_L2)$", samples=8)], "thorough": [J("^vhC04_(ref_L6|variants_L3|blocking_L3|chain_L3)$", samples=16, xcheck="z3-new", xrate=50)],
             "bounds": {"script_length_quick": 5, "script_length_thorough": 6}, "assumptions": []},
 }
 
